@@ -25,7 +25,8 @@ META = {'design_ref': 'DESIGN.md section 7 / C02',
                'emits a prefix of the unfragmented byte string and leaves steps producing the rest, for every fill <= capacity >= 4; progress when 4 '
                'bytes are free; any call sequence that finishes emits exactly flatten steps), and per packet kind and protocol version: valid packet '
                '-> the encoder succeeds and the independent reference decoder returns the canonical form of the packet with no bytes left. '
-               'SUBSCRIBE (MQTT5) with a subscription identifier is REFUTED (C02_Subscribe_V5_refuted) and proved without it. The model is run '
+               'SUBSCRIBE (MQTT5) with a subscription identifier was refuted on the code before /repo commit d62c54a (D3) and is proved for the '
+               'repaired encoder. The model is run '
                'against the crate\'s encoder on generated packets on every check.',
  'technique': 'machine-checked proof in Coq (round-trip lemmas per wire primitive composed per packet; induction over step lists) + differential '
               'correspondence of the extracted model with the implementation, reference decoder as monitor'}
